@@ -98,6 +98,17 @@ from traits.adaptation.api import adapt as _adapt, register_factory  # noqa: E40
 register_factory(FooAdapter, Baz, Foo)      # a Baz can be adapted to Foo
 
 
+class Proxy:
+    """transparent proxy: its type is Proxy, its __class__ attribute reports the class of the wrapped object"""
+
+    def __init__(self, target):
+        self._target = target
+
+    @property
+    def __class__(self):
+        return type(self._target)
+
+
 def f0():
     return 1
 
@@ -114,7 +125,7 @@ CLASSES = {0: object, 1: type(None), 2: bool, 3: int, 4: float, 5: complex, 6: s
            10: IntSub, 11: FloatSub, 12: StrSub, 13: TupSub, 14: np.int32, 15: np.int64, 16: np.uint8,
            17: np.float32, 18: np.float64, 19: np.bool_, 20: Idx, 21: Flt, 22: Cpx, 23: types.FunctionType,
            24: type, 25: types.ModuleType, 26: dict, 28: types.BuiltinFunctionType,
-           100: Foo, 101: Bar, 102: Baz, 103: FooAdapter, 110: HostBase, 111: HostSubBase}
+           30: Proxy, 100: Foo, 101: Bar, 102: Baz, 103: FooAdapter, 110: HostBase, 111: HostSubBase}
 NPK = {14: np.int32, 15: np.int64, 16: np.uint8, 17: np.float32, 18: np.float64}
 OTHERS = {-1: lambda: {}, -2: lambda: {1: 2}, -3: lambda: {1}, 1: lambda: object(), 2: lambda: frozenset([1])}
 MODULES = {0: math, 1: re}
@@ -273,6 +284,8 @@ class Pool:
             return OTHERS[j[1]]()
         if k == "PArray":
             return make_array(j[1], j[2], j[3])
+        if k == "PProxy":
+            return Proxy(self.obj(j[1], j[2]))
         raise ValueError(j)
 
     # ---- Python value -> JSON (exact type tag + atom) ----
@@ -311,6 +324,9 @@ class Pool:
             return ["PNpBool", bool(v)]
         if t is np.ndarray:
             return enc_array(v)
+        if t is Proxy:
+            c, i = self.ids[id(v._target)]
+            return ["PProxy", c, i]
         if t is Idx:
             return ["PIndexObj", v.conv]
         if t is Flt:
@@ -361,16 +377,34 @@ def trait(d, pool):
     if k == "DCast":
         return CASTS[d[1]]()
     if k == "DRangeF":
-        return Range(low=fbound(d[1]), high=fbound(d[2]), exclude_low=bool(d[3] & 1), exclude_high=bool(d[3] & 2))
+        lo, hi = fbound(d[1]), fbound(d[2])
+        if len(d) > 4 and d[4] == "mixed":     # Range(0, 1.0) / Range(0.0, 1): one int bound, still a float range
+            if lo is not None and hi is not None and float(lo).is_integer() and abs(lo) < 2 ** 53:
+                lo = int(lo)
+            elif hi is not None and lo is not None and float(hi).is_integer() and abs(hi) < 2 ** 53:
+                hi = int(hi)
+        return Range(low=lo, high=hi, exclude_low=bool(d[3] & 1), exclude_high=bool(d[3] & 2))
     if k == "DRangeI":
         return Range(low=d[1], high=d[2], exclude_low=bool(d[3] & 1), exclude_high=bool(d[3] & 2))
     if k == "DEnum":
-        return Enum([pool.val(x) for x in d[1]])
+        vals = [pool.val(x) for x in d[1]]
+        form = d[2] if len(d) > 2 else "list"
+        if form == "args" and len(vals) > 1:           # Enum(a, b, c)
+            return Enum(*vals)
+        if form == "dflt" and len(vals) > 1:           # Enum(default, [a, b, c])
+            return Enum(vals[-1], vals)
+        if form == "tuple":                            # Enum((a, b, c))
+            return Enum(tuple(vals))
+        return Enum(vals)
     if k == "DMap":
         return Map({pool.val(a): pool.val(b) for a, b in d[1]})
     if k == "DTuple":
         return Tuple(*[trait(x, pool) for x in d[1]])
     if k == "DInstance":
+        if len(d) > 4 and d[4] == "clone":     # Instance(K, allow_none=not an)(allow_none=an): a trait type called with metadata
+            return Instance(pool.classes[d[1]], allow_none=not d[2])(allow_none=bool(d[2]))
+        if len(d) > 4 and d[4] == "name":      # Instance("Foo"): class resolved at the first validation
+            return Instance(pool.classes[d[1]].__name__, allow_none=bool(d[2]), module=__name__)
         return Instance(pool.classes[d[1]], allow_none=bool(d[2]))
     if k == "DAdapt":
         return Instance(pool.classes[d[1]], adapt={1: "yes", 2: "default"}[d[2]], allow_none=bool(d[3]))
@@ -394,8 +428,8 @@ def trait(d, pool):
         return Array(dtype=None if d[1] is None else DTYPES[d[1]], shape=shp, casting=CASTING[d[3]])
     if k == "DCompound":
         return Either(*[trait(x, pool) for x in d[1]])
-    if k == "DUnion":
-        return Union(*[trait(x, pool) for x in d[1]])
+    if k == "DUnion":                       # Union(None, ...): the None alternative is an enumeration of None
+        return Union(*[None if x == ["DEnum", [["PNone"]]] else trait(x, pool) for x in d[1]])
     raise ValueError(d)
 
 
